@@ -96,7 +96,7 @@ SEMIRINGS = ("addmul", "log")
 
 
 def _routes(tier, kind, expr=None):
-    if expr is not None and (_has(expr, "ren") or _has(expr, "slice") or _has(expr, "index")):
+    if expr is not None and any(_has(expr, k) for k in ("ren", "mren", "slice", "index")):
         # apply_optimizer's unfold pass (which includes `lazy`) evaluates Subs-of-Tensor into a new tensor, so a leaf
         # reached through a substitution is no longer a leaf of the optimized term: nothing to check on those routes
         return (0,)
@@ -210,6 +210,26 @@ def subs_cases(tier):
                 except (AssertionError, ValueError):
                     continue
                 for X in (_subsets(present) if (tier == "thorough" or len(present) <= 3) else _some_subsets(present)):
+                    out.append(("subs", leaves, ["sum", prod, X] if X else prod))
+    # simultaneous renamings that permute or shift the leaf's OWN (equally sized) input names: the scattered axes must
+    # be told apart from the cotangent's axes of the same name (adjoint_subs relabels the keys for this)
+    own2 = [[["a", "c"], ["c", "a"]], [["a", "c"], ["c", "z"]], [["c", "a"], ["a", "z"]]]
+    own3 = [[["a", "b"], ["b", "c"], ["c", "a"]], [["a", "c"], ["c", "b"], ["b", "a"]], [["a", "c"], ["c", "a"]],
+            [["a", "b"], ["b", "a"]], [["a", "b"], ["b", "c"], ["c", "z"]]]
+    for names, sizes, perms, menu in (
+        (("a", "c"), {}, own2, [None, (), ("a",), ("c",), ("a", "c"), ("a", "b"), ("c", "d")]),
+        (("a", "b", "c"), {"b": 2}, own3, [None, (), ("a",), ("c",), ("a", "c")]),  # b:2 here, so no other factor has b
+    ):
+        for perm in perms:
+            for other in menu:
+                leaves = {1: _leaf(names, sizes=sizes)}
+                terms = [["mren", 1, perm]]
+                if other is not None:
+                    leaves[2] = _leaf(other)
+                    terms.append(["leaf", 2])
+                prod = ["mul", terms] if len(terms) > 1 else terms[0]
+                present = _free(prod, leaves)
+                for X in _subsets(present):
                     out.append(("subs", leaves, ["sum", prod, X] if X else prod))
     return out
 
@@ -386,6 +406,8 @@ def _occ_code(node):
         return "t%s" % node[1]
     if k == "ren":
         return "t%s(%s=%r)" % (node[1], node[2], node[3])
+    if k == "mren":
+        return "t%s(%s)" % (node[1], ", ".join("%s=%r" % (o, n) for o, n in node[2]))
     if k == "slice":
         return "t%s(%s=Slice(%r, %d, %d, %d, SIZE_%s))" % (node[1], node[2], node[3], node[4], node[5], node[6], node[1])
     if k == "index":
@@ -396,7 +418,7 @@ def _occ_code(node):
 
 def code(e, leaves=None):
     k = e[0]
-    if k in ("leaf", "ren", "slice", "index"):
+    if k in adjref.OCC_KINDS:
         s = _occ_code(e)
         if leaves is not None and k in ("slice", "index"):
             size = dict((n, z) for n, z in leaves[str(e[1])]["inputs"])[e[2]]
@@ -498,6 +520,8 @@ def build(case, seed):
             return t
         if k == "ren":
             return t(**{node[2]: node[3]})
+        if k == "mren":
+            return t(**{o: n for o, n in node[2]})
         if k == "slice":
             size = t.inputs[node[2]].size
             return t(**{node[2]: Slice(node[3], int(node[4]), int(node[5]), int(node[6]), size)})
@@ -509,7 +533,7 @@ def build(case, seed):
 
     def go(e):
         k = e[0]
-        if k in ("leaf", "ren", "slice", "index"):
+        if k in adjref.OCC_KINDS:
             return occ(e)
         if k == "cat":
             return Cat(e[1], tuple(go(p) for p in e[2]))
@@ -619,7 +643,7 @@ def _leaf_profile(case):
 
     def walk(e, in_cat):
         k = e[0]
-        if k in ("leaf", "ren", "slice", "index"):
+        if k in adjref.OCC_KINDS:
             p = prof.setdefault(str(e[1]), {"access": set(), "count": 0, "in_cat": False, "occ_names": []})
             p["access"].add(k)
             p["count"] += 1
@@ -642,7 +666,7 @@ def _has(e, kind):
     k = e[0]
     if k == kind:
         return True
-    if k in ("leaf", "ren", "slice", "index"):
+    if k in adjref.OCC_KINDS:
         return False
     if k == "cat":
         return any(_has(c, kind) for c in e[2])
@@ -653,7 +677,7 @@ def _has(e, kind):
 
 def _reductions(e):
     k = e[0]
-    if k in ("leaf", "ren", "slice", "index"):
+    if k in adjref.OCC_KINDS:
         return []
     if k == "cat":
         return [r for c in e[2] for r in _reductions(c)]
@@ -664,7 +688,7 @@ def _reductions(e):
 
 def _cats(e):
     k = e[0]
-    if k in ("leaf", "ren", "slice", "index"):
+    if k in adjref.OCC_KINDS:
         return []
     if k == "cat":
         return [e]
@@ -676,7 +700,7 @@ def _cats(e):
 def _reductions_with_paths(e, path=()):
     """[(path, node)] of the sum/prod nodes, paths as in adjref.occurrences."""
     k = e[0]
-    if k in ("leaf", "ren", "slice", "index"):
+    if k in adjref.OCC_KINDS:
         return []
     if k == "cat":
         return [r for q, c in enumerate(e[2]) for r in _reductions_with_paths(c, path + (q,))]
@@ -720,7 +744,7 @@ def _site(case, prof):
     if prof["count"] > 1:
         return "twice-used-leaf"
     if access:
-        return "adjoint_subs:" + {"ren": "rename", "slice": "slice", "index": "index"}[access[0]]
+        return "adjoint_subs:" + {"ren": "rename", "mren": "rename", "slice": "slice", "index": "index"}[access[0]]
     if prof["in_cat"]:
         return "adjoint_cat"
     if _has(case["expr"], "prod"):
